@@ -1057,7 +1057,12 @@ func (ex *Exec) fmtArg(fr *frame, spec string, verb byte, a Value) *Term {
 		switch v.Sort {
 		case SString:
 			if verb == 'q' || spec == "%#v" {
-				return TConcat(TConcat(TStr(`"`), v), TStr(`"`))
+				// Go quoting: the string between double quotes when it holds neither a
+				// quote nor a backslash (symbolic strings are printable ASCII, so nothing
+				// else needs an escape); otherwise an unspecified function of the string
+				plain := TAnd(TNot(TContains(v, TStr(`"`))), TNot(TContains(v, TStr(`\`))))
+				quoted := ex.symString("quote("+v.String()+")", 2*ex.w.cfg.StrMaxLen+2)
+				return TIte(plain, TConcat(TConcat(TStr(`"`), v), TStr(`"`)), quoted)
 			}
 			return v
 		case SInt:
